@@ -89,7 +89,51 @@ def tied_member(s, shape, prof):
     return (U[:, :n] * np.array(prof, dtype=float)) @ V.conj().T
 
 
+SCALES = (1e-12, 1e-9, 1e-6, 1e6, 1e9)
+
+
+def near_tied_profiles(n):
+    """singular values nearly but not exactly equal (relative gaps 1e-6 and 1e-9), descending"""
+    k = np.arange(n)
+    profs = [1.0 - 1e-6 * k, 1.0 + 1e-9 * (k - (n - 1) / 2.0), np.where(k == 0, 1.0 + 1e-6, 1.0 - 1e-9 * k),
+             np.where(k < (n + 1) // 2, 2.0, 2.0 * (1 - 1e-6)) * (1 + 1e-9 * k)]
+    return [np.sort(p)[::-1] for p in profs]
+
+
+def fam_scale(fam):
+    return float(fam.split("@")[1].split("_")[0]) if "@" in fam else 1.0
+
+
+def scaled_items(tier):
+    """global scale factors (all relations are scale covariant; tolerances are relative) and nearly
+    tied singular values, every kernel on the first members, the gmd identities on all of them"""
+    thorough = tier == "thorough"
+    Ss = 6 if thorough else 2
+    shp = shapes(6 if thorough else 4) + ([] if thorough else [(5, 4), (5, 5), (6, 5), (6, 6)])
+    for shape in shp:
+        m, n = shape
+        for g in SCALES:
+            for s in range(Ss):
+                yield ("generic_c@%g" % g, s, g * F.generic(s, shape, True, tag=20))
+                yield ("generic_r@%g" % g, s, g * F.generic(s, shape, False, tag=20))
+                if n >= 2:
+                    yield ("neardep100@%g" % g, s, g * F.nearly_dependent(s, shape, 1e2))
+        if n >= 2:
+            for pi, prof in enumerate(near_tied_profiles(n)):
+                for g in (1.0, 1e-9, 1e6):
+                    for s in range(2 * Ss):
+                        yield ("neartied%d@%g%s" % (pi, g, "" if s < 1 else "_gmdonly"), s,
+                               g * tied_member(s, shape, prof))
+
+
 def matrix_items(tier):
+    for it in base_matrix_items(tier):
+        yield it
+    for it in scaled_items(tier):
+        yield it
+
+
+def base_matrix_items(tier):
     thorough = tier == "thorough"
     M = 6 if thorough else 4
     ent = 8 if thorough else 6
@@ -159,6 +203,79 @@ def H(X):
 
 
 # ----------------------------------------------------------------------
+# argument aliasing / in-place mutation battery (every kernel)
+# ----------------------------------------------------------------------
+LAYOUTS = ("F", "Tview_ro", "C_ro")
+
+
+def lay(a, how):
+    """the same values in another memory layout: Fortran ordered (owning, writeable), a read-only
+    transposed view of a C buffer, a read-only C copy; 1-D: strided view / read-only copies"""
+    a = np.asarray(a)
+    if a.ndim == 2:
+        if how == "F":
+            return np.array(a, order="F", copy=True)
+        if how == "Tview_ro":
+            b = np.array(a.T, order="C", copy=True).T
+        else:
+            b = np.array(a, order="C", copy=True)
+        b.setflags(write=False)
+        return b
+    if a.ndim == 1:
+        if how == "F":
+            base = np.zeros(2 * a.size, dtype=a.dtype)
+            v = base[::2]
+            v[...] = a
+            return v
+        b = a.copy()
+        b.setflags(write=False)
+        return b
+    return a
+
+
+def flat(r):
+    if isinstance(r, (tuple, list)):
+        out = []
+        for x in r:
+            out += flat(x)
+        return out
+    return [np.asarray(r)]
+
+
+def alias_battery(chk, kern, fn, arrs, case, kappa=1.0, compare_layouts=True):
+    """fn(*arrays) must (a) leave every argument bit-identical, (b) not raise on read-only or
+    non-C-contiguous arguments, (c) return the same when called again with the same argument
+    objects, (d) not depend on the memory layout of its arguments"""
+    with chk.guard((kern, "aliasing", "reference_call"), case):
+        base = flat(fn(*[np.array(a) for a in arrs]))
+        for how in LAYOUTS:
+            chk.count("eval_aliasing")
+            ins = [lay(a, how) for a in arrs]
+            snap = [(x.tobytes(), x.shape, x.strides, x.dtype) for x in ins]
+            cs = dict(case, layout=how)
+            try:
+                r1 = flat(fn(*ins))
+                mid = [x.tobytes() for x in ins]
+                r2 = flat(fn(*ins))
+            except Exception as e:  # noqa
+                chk.fail((kern, "aliasing", "raises", how, type(e).__name__), cs,
+                         observed="%s: %s" % (type(e).__name__, e), expected="same result as for a C-ordered copy")
+                continue
+            for i, (x, sn, md) in enumerate(zip(ins, snap, mid)):
+                if md != sn[0] or (x.tobytes(), x.shape, x.strides, x.dtype) != sn:
+                    chk.fail((kern, "aliasing", "mutates_argument", how), dict(cs, argument=i),
+                             observed="argument %d changed by the call" % i, expected="bit-identical")
+            if len(r1) != len(r2) or any(not np.array_equal(u, v, equal_nan=True) for u, v in zip(r1, r2)):
+                chk.fail((kern, "aliasing", "second_call_differs", how), cs,
+                         observed="second call with the same argument objects returns something else",
+                         expected="identical results")
+            if compare_layouts:
+                if len(r1) != len(base) or any(not N.close(u, v, kappa, C) for u, v in zip(r1, base)):
+                    chk.fail((kern, "aliasing", "layout_changes_result", how), cs,
+                             observed=max([N.err(u, v) for u, v in zip(r1, base)] or [0]), expected=0)
+
+
+# ----------------------------------------------------------------------
 # projections
 # ----------------------------------------------------------------------
 def run_projection(chk, case, A, kappa):
@@ -199,6 +316,14 @@ def run_projection(chk, case, A, kappa):
                 if not N.close(lhs, rhs, k2, C, scale_=sc):
                     chk.fail(("projection", nm), dict(case, M_index=mi), observed=N.err(lhs, rhs), expected=0,
                              msg="kappa %.3g" % kappa)
+    alias_battery(chk, "calcProjectionMatrix", PR.calcProjectionMatrix, [A], case, k2)
+    alias_battery(chk, "calcOrthogonalProjectionMatrix", PR.calcOrthogonalProjectionMatrix, [A], case, k2)
+
+    def proj_all(a, mm):
+        P = PR.Projection(a)
+        return P.project(mm), P.oProject(mm), P.reflect(mm)
+
+    alias_battery(chk, "Projection", proj_all, [A, F.generic(1, (m, 2), True, tag=23)], case, k2)
 
 
 # ----------------------------------------------------------------------
@@ -234,6 +359,8 @@ def run_gmd(chk, case, A, kappa, sv):
         if not N.close(dg, np.full(n, gm), 1.0, C):
             chk.fail(("gmd", "diagR!=geometric_mean"), case, observed=dg, expected=gm)
         chk.outcome("gmd_rotations", (n, int(np.sum(np.abs(np.triu(R[:n, :n], 1)) > 1e-9 * gm))))
+    Ua, Sa, Va = np.linalg.svd(np.array(A))
+    alias_battery(chk, "gmd", misc.gmd, [Ua, Sa, Va], case, kappa)
 
 
 # ----------------------------------------------------------------------
@@ -270,6 +397,9 @@ def run_lrsv(chk, case, A, orient):
             n1 = np.linalg.norm(B @ V1, axis=0) if c - k else np.zeros(0)
             if N.err(n1, asc[k:]) > tol:
                 chk.fail(("lrsv", "V1_S_mismatch", orient), cs, observed=n1, expected=asc[k:])
+    for k in sorted({max(0, c - r), c}):
+        alias_battery(chk, "least_right_singular_vectors", lambda b, k=k: misc.least_right_singular_vectors(b, k),
+                      [B], dict(case, kernel="lrsv", orient=orient, k=k), 1.0)
     if c - r > 0:
         chk.count("excluded_lrsv_wide_k_below_nullity", c - r)
 
@@ -314,6 +444,10 @@ def run_eig(chk, case, Cm, which):
                              observed="sigma_min(V) = %.3g" % smin, expected="> 1e-6",
                              msg="returned eigenvectors are linearly dependent; eigenvalues of the matrix: %s"
                                  % np.array2string(ev, precision=6))
+        for k in sorted({1, Nn}):
+            # (layouts are not compared for the eigenvectors: only their span and eigenvalues are specified)
+            alias_battery(chk, fn, lambda a, k=k, f=f: f(a, k), [Cm], dict(case, kernel=fn, matrix=which, k=k),
+                          compare_layouts=False)
         cs = dict(case, kernel=fn, matrix=which, k=Nn + 1)
         chk.count("eval_" + fn)
         try:
@@ -356,6 +490,7 @@ def run_whiten(chk, case, Cm, which):
                       else "well_separated_eigenvalues"), cs,
                      observed=N.err(out, np.eye(Nn)), expected=0,
                      msg="kappa(C)=%.3g, eigenvalues of C: %s" % (kc, np.array2string(ev, precision=6)))
+    alias_battery(chk, "calc_whitening_matrix", misc.calc_whitening_matrix, [Cm], cs, compare_layouts=False)
 
 
 # ----------------------------------------------------------------------
@@ -395,7 +530,8 @@ def run_matrix_item(chk, fam, member, A):
     run_eig(chk, case, gram, "A^H.A")
     if m > n:
         run_eig(chk, case, outer, "A.A^H")
-    for eps in (1.0, 0.1):
+    g2 = fam_scale(fam) ** 2
+    for eps in (1.0 * g2, 0.1 * g2):
         run_whiten(chk, dict(case, eps=eps), outer + eps * np.eye(m), "A.A^H+eps.I")
     run_whiten(chk, case, gram, "A^H.A")
 
@@ -518,6 +654,8 @@ def run_update(chk, case):
                      case, observed=e2, expected=0)
         if n > 1:
             chk.nontriv(("update", case["fam"], case["member"], n, tuple(d.tolist())))
+    if case.get("battery"):
+        alias_battery(chk, "update_inv_sum_diag", misc.update_inv_sum_diag, [X, d], case, kx * kpart)
 
 
 # ----------------------------------------------------------------------
